@@ -107,6 +107,7 @@ pub fn run<P: Prop>(data: &[u8]) {
     static INIT: std::sync::Once = std::sync::Once::new();
     INIT.call_once(install_panic_hook);
     let Some(case) = decode::<P::Case>(data) else { return };
+    if !P::fuzz_in_domain(&case) { return }
     let ctx = Ctx { tier: Tier::Quick, seed: 0, replay: false };
     let out = match guard(|| P::run(&case, &ctx)) { Ok(o) => o, Err(m) => Outcome::Fail(format!("uncaught panic: {m}")) };
     if let Outcome::Fail(m) = out {
